@@ -22,7 +22,7 @@ ASSUMPTIONS = ["faults are injected at the objfun boundary by the recording wrap
 NREF = {"quick": 80, "thorough": 800}
 KINDS = ["nan", "inf", "-inf", "1e200", "raise"]
 FAMILIES = ["plain", "bounded", "scaled", "projections", "soft", "hard", "hard_fresh", "averaging", "regression", "growing", "diagnostics",
-            "throw_on_nan", "diagnostics_soft", "growing_soft", "regression_soft", "growing_hard"]
+            "throw_on_nan", "diagnostics_soft", "growing_soft", "regression_soft", "growing_hard", "regularised", "regularised_soft"]
 CASE_TIMEOUT = {"quick": 600, "thorough": 1800}
 NSAMPLES = 5
 EXHAUSTIVE = True
@@ -93,6 +93,16 @@ def make_cfg(seed, i):
         up["logging.save_poisedness"] = bool(r() < 0.3)
     if fam == "throw_on_nan":
         up["interpolation.throw_error_on_nans"] = True
+    if fam in ("regularised", "regularised_soft"):
+        # regularised objective (own step solver, own criticality measure): the same single-evaluation faults, plus a value that is
+        # finite but overflow-sized for everything computed from it (its square is 1e240; J'J and ||H|| overflow)
+        cfg["reg"] = dict(type=gen.pick(rng, ["l1", "l2"]), lam=float(10.0 ** rng.uniform(-2, 0)))
+        cfg["args"]["maxfun"] = int(gen.pick(rng, [14, 20]))
+        if fam == "regularised_soft":
+            up["restarts.use_restarts"] = True
+            up["restarts.max_unsuccessful_restarts"] = 2
+            cfg["args"]["rhoend"] = float(0.1 * 10.0 ** rng.uniform(-2.5, -1))
+        cfg["_extra_kinds"] = ["1e120"]
     cfg["_family"] = fam
     return cfg
 
@@ -161,7 +171,7 @@ def check_faulted(run, cfg, k, kind, persistent, res, tag):
         if not any(np.max(np.abs(c["x"] - x)) <= tolx for c in calls):
             add("returned-x-never-evaluated", "soln.x is not within rounding of any evaluated point")
     # a bad value never displaces a finite best point found earlier
-    tab = oracles.point_table(run)
+    tab = oracles.point_table(run, h=(b.h_raw if getattr(b, "h", None) is not None else None))
     order = sorted(tab)
     finite_before = []
     for p in order:
@@ -208,7 +218,7 @@ def run_case(case):
     npt = cfg["args"].get("npt") or cfg["prob"]["n"] + 1
     nviol_before = 0
     for k in range(1, nf + 1):
-        for kind in KINDS:
+        for kind in KINDS + list(cfg.get("_extra_kinds") or []):
             c2 = copy.deepcopy(cfg)
             c2["faults"] = {str(k): kind}
             run = gen.run_cfg(c2, timeout=(150 if cfg.get("proj") else 60))
